@@ -176,7 +176,15 @@ def b_cdraw(ctx):
         for n, val in enumerate(go["values"][ctx.pi][:ctx.N + 1]):
             if n == 0:
                 continue       # z is not initialised before the first iteration
-            if "q" in val:
+            if "q" in val and it.get("guard_var"):
+                # z = c0 before, drawn only if the {0,1}-valued guard variable is 1: E[m z^k] = E[m g fam^k] + c0^k E[m (1 - g)]
+                gv, c0 = it["guard_var"], it["else_value"]
+                mg = [(c, tuple(sorted(dict(mono_).items() | {(gv, 1)} if gv not in dict(mono_) else
+                                   [(v, e + (1 if v == gv else 0)) for v, e in mono_]))) for c, mono_ in mono]
+                ep = [(c * c0 ** k, mono_) for c, mono_ in mono] + [(-c * c0 ** k, m2) for c, m2 in mg]
+                ctx.claim(n, {"t": "cdraw", "pi": ctx.src, "fam": it["fam"], "params": it["params_polys"], "k": k,
+                              "poly": mg, "ep": ep, "val": F(val["q"]), "tag": g})
+            elif "q" in val:
                 ctx.claim(n, {"t": "cdraw", "pi": ctx.src, "fam": it["fam"], "params": it["params_polys"], "k": k,
                               "poly": mono, "val": F(val["q"]), "tag": g})
             else:
@@ -226,7 +234,22 @@ def cdraw_items(rng, quick):
                           "goalmap": goalmap, "goals": list(goalmap), "points": [{}], "origin": f"cdraw {text}",
                           "meta": meta})
             i += 1
-    return items if not quick else [it for i, it in enumerate(items) if i % 2 == 0 or i % 4 == 1 or "Laplace(x, y + 1)" in it["text"]]
+    sel = items if not quick else [it for i, it in enumerate(items) if i % 2 == 0 or i % 4 == 1 or "Laplace(x, y + 1)" in it["text"]]
+    # the same draws inside a branch: z = 5 first, redrawn only if x == 1 (x in {0, 1}); the location/scale rewriting must
+    # keep the branch condition
+    guarded = []
+    for fam, text, params in shapes:
+        if fam == "normal" and any(m for c, m in params[1]):
+            continue                     # D17 shapes stay in the unguarded part
+        init_t, body_t, init_a, body_a = prefixes[0]
+        src = f"{init_t}z = 0\nwhile true:\n{body_t}    z = 5\n    if x == 1:\n        z = {text}\n    end\nend\n"
+        P = {"vars": ["x", "y", "z"], "s0": {}, "guard": ("true",),
+             "init": init_a + [("assign", "z", [(F(1), [])], ("true",), "z")], "body": body_a}
+        goalmap = {"z": (1, [(F(1), ())]), "z**2": (2, [(F(1), ())]), "x*z": (1, [(F(1), V("x"))]), "y*z**2": (2, [(F(1), V("y"))])}
+        guarded.append({"id": f"cdg{len(guarded)}", "text": src, "T": None, "P": P, "fam": fam, "params_polys": params,
+                        "goalmap": goalmap, "goals": list(goalmap), "points": [{}], "origin": f"guarded cdraw {text}",
+                        "meta": {}, "guard_var": "x", "else_value": F(5)})
+    return sel + (guarded if not quick else guarded[::2] + guarded[1:2])
 
 
 def main(tier, seed):
